@@ -21,17 +21,34 @@ uint8_t _ZNK5gdstk7Polygon7containENS_4Vec2E(Poly* p, NUM x, NUM y) {
   CHECK(0, "contain called with a polygon or point that is not part of the query"); return 0;
 }
 #endif
+static int64_t VX[NP + 1][NV], VY[NP + 1][NV];
+/* exact winding / on-boundary oracle (the one contain_vs_winding proves Polygon::contain equal to): used under -DT_ORACLE
+   to turn an abstract counterexample into one the real code reproduces */
+static int oracle(int j, int64_t px, int64_t py) {
+  int on = 0; int64_t wn = 0;
+  for (int i = 0; i < NV; i++) { int k = (i + 1) % NV; int64_t ax = VX[j][i], ay = VY[j][i], bx = VX[j][k], by = VY[j][k];
+    int64_t cr = (bx - ax) * (py - ay) - (by - ay) * (px - ax);
+    int64_t lox = ax < bx ? ax : bx, hix = ax < bx ? bx : ax, loy = ay < by ? ay : by, hiy = ay < by ? by : ay;
+    if (cr == 0 && px >= lox && px <= hix && py >= loy && py <= hiy) on = 1;
+    if (ay <= py) { if (by > py && cr > 0) wn++; } else { if (by <= py && cr < 0) wn--; } }
+  return on || wn != 0;
+}
 int main(void) {
   int64_t lo_x[NP + 1], hi_x[NP + 1], lo_y[NP + 1], hi_y[NP + 1];
   Poly* pp[NP + 1];
   for (int j = 0; j < NP; j++) { NUM* pts = malloc(sizeof(NUM) * 2 * NV); memset(&polys[j], 0, sizeof(Poly)); pp[j] = &polys[j];
     lo_x[j] = lo_y[j] = 100; hi_x[j] = hi_y[j] = -100;
-    for (int k = 0; k < NV; k++) { int64_t x = nd_range(-R, R), y = nd_range(-R, R); pts[2 * k] = NUM_OF_INT(x); pts[2 * k + 1] = NUM_OF_INT(y);
+    for (int k = 0; k < NV; k++) { int64_t x = nd_range(-R, R), y = nd_range(-R, R); pts[2 * k] = NUM_OF_INT(x); pts[2 * k + 1] = NUM_OF_INT(y); VX[j][k] = x; VY[j][k] = y;
       if (x < lo_x[j]) lo_x[j] = x; if (x > hi_x[j]) hi_x[j] = x; if (y < lo_y[j]) lo_y[j] = y; if (y > hi_y[j]) hi_y[j] = y; }
     polys[j].f1.f0 = NV; polys[j].f1.f1 = NV; polys[j].f1.f2 = (void*)pts; }
   NUM* qp = malloc(sizeof(NUM) * 2 * (NQ + 1));
   for (int i = 0; i < NQ; i++) { qx[i] = nd_range(-R - 1, R + 1); qy[i] = nd_range(-R - 1, R + 1); qp[2 * i] = NUM_OF_INT(qx[i]); qp[2 * i + 1] = NUM_OF_INT(qy[i]); }
   for (int j = 0; j < NP; j++) for (int i = 0; i < NQ; i++) { T[j][i] = nd_bool();
+#if defined(REAL)
+    T[j][i] = _ZNK5gdstk7Polygon7containENS_4Vec2E(&polys[j], NUM_OF_INT(qx[i]), NUM_OF_INT(qy[i])) & 1;      /* replay: the real predicate */
+#elif defined(T_ORACLE)
+    T[j][i] = oracle(j, qx[i], qy[i]);
+#endif
     if (T[j][i]) ASSUME(qx[i] >= lo_x[j] && qx[i] <= hi_x[j] && qy[i] >= lo_y[j] && qy[i] <= hi_y[j]);          /* the lemma proved in contain_vs_winding */
     for (int k = 0; k < i; k++) if (qx[k] == qx[i] && qy[k] == qy[i]) ASSUME(T[j][i] == T[j][k]); }            /* a predicate: equal points, equal answers */
   ARGT__ZN5gdstk6insideERKNS_5ArrayINS_4Vec2EEERKNS0_IPNS_7PolygonEEEPb_0 parr; parr.f0 = NQ; parr.f1 = NQ; parr.f2 = (void*)qp;
